@@ -74,8 +74,8 @@ def run(chk):
     carry_model(chk)
     tiny_scope(chk)
     plan = [
-        dict(flavour="asan-ubsan", scen="expand", runs=(1200, 30000), opts={"varyScale": 4, "maxMovable": 8, "utilLo": 0.02, "utilHi": 0.9}),
-        dict(flavour="rel", scen="expand", runs=(800, 20000), opts={"varyScale": 4, "maxMovable": 14, "utilLo": 0.02, "utilHi": 1.2}),
+        dict(flavour="asan-ubsan", scen="expand", runs=(1200, 30000), opts={"varyScale": 4, "maxMovable": 8, "utilLo": 0.02, "utilHi": 0.9, "zeroAreaMovable": 1}),
+        dict(flavour="rel", scen="expand", runs=(800, 20000), opts={"varyScale": 4, "maxMovable": 14, "utilLo": 0.02, "utilHi": 1.2, "zeroAreaMovable": 1}),
         # many cells of mixed heights: rounding remainders carried from cell to cell must not add up
         dict(flavour="rel", scen="expand", runs=(500, 12000), opts={"maxMovable": 60, "twoTypes": 1, "maxFixed": 2, "utilLo": 0.02, "utilHi": 0.3, "maxNets": 2}),
     ]
